@@ -309,5 +309,184 @@ def rule_ord(ctx, scope_funcs=None, prop='C10', rule='C10.ord', floor=4):
     return rr
 
 
+CYCLE = 'formulas/excel/cycle.py'
+EXCEL = 'formulas/excel/__init__.py'
+_MUT = {'append', 'extend', 'pop', 'add', 'discard', 'remove', 'update',
+        'clear', 'insert', 'setdefault', 'popitem', 'subtract'}
+
+
+def _root_name(e):
+    while isinstance(e, (ast.Subscript, ast.Attribute, ast.Call)):
+        e = e.func if isinstance(e, ast.Call) else e.value
+    return e.id if isinstance(e, ast.Name) else None
+
+
+def _mutated_names(ctx, fi, root):
+    """Local names whose object is mutated somewhere under `root`."""
+    E = ctx.effects
+    out = {}
+    for n in ast.walk(root):
+        if isinstance(n, ast.Call) and isinstance(n.func, ast.Attribute) and \
+                n.func.attr in _MUT:
+            r = _root_name(n.func.value)
+            if r:
+                out.setdefault(r, n)
+        if isinstance(n, (ast.Assign, ast.AugAssign, ast.Delete)):
+            tg = n.targets if not isinstance(n, ast.AugAssign) else [n.target]
+            for t in tg:
+                if isinstance(t, (ast.Subscript, ast.Attribute)):
+                    r = _root_name(t)
+                    if r:
+                        out.setdefault(r, n)
+        if isinstance(n, ast.Call) and isinstance(n.func, (ast.Name,
+                                                           ast.Attribute)):
+            r = ctx.cg.resolve_name_expr(fi, n.func)
+            if r and r[0] in ('func', 'nested'):
+                g = r[1]
+                sm = E.summ.get(g.fq)
+                if sm:
+                    for i, a in enumerate(n.args):
+                        if i < len(g.params) and g.params[i] in sm.mutates:
+                            rn = _root_name(a)
+                            if rn:
+                                out.setdefault(rn, n)
+    return out
+
+
+def rule_fresh(ctx):
+    rr = RuleResult('C10', 'C10.fresh', 'DEF',
+                    'the search state of the cycle enumeration is created anew '
+                    'for every start node', floor=4)
+    p = ctx.project
+    f = p.func(CYCLE, 'simple_cycles')
+    outer = [n for n in f.node.body if isinstance(n, ast.While)]
+    if len(outer) != 1:
+        raise AnalysisError('simple_cycles: component loop not recognised')
+    outer = outer[0]
+    inner = [n for n in outer.body if isinstance(n, ast.While)]
+    if len(inner) != 1:
+        raise AnalysisError('simple_cycles: search loop not recognised')
+    inner = inner[0]
+    mutated = _mutated_names(ctx, f, inner)
+    params = set(f.all_params)
+    for name, where in sorted(mutated.items()):
+        rr.instances += 1
+        inside = [n for n in ast.walk(outer) if isinstance(n, ast.Name) and
+                  n.id == name and isinstance(n.ctx, ast.Store)]
+        cleared = any(isinstance(s, ast.Expr) and isinstance(s.value, ast.Call)
+                      and call_name(s.value) == 'clear' and
+                      _root_name(s.value.func) == name for s in outer.body)
+        if inside or cleared:
+            rr.ok('`%s` (mutated by the search at line %d) is (re)created in '
+                  'the per-component loop' % (name, where.lineno),
+                  '%s:%d' % (CYCLE, inside[0].lineno if inside else
+                             outer.lineno))
+        else:
+            rr.fail(key_of(f, 'search state `%s` survives the start node'
+                           % name) if False else
+                    key_of(f, 'search state carried across start nodes'),
+                    'simple_cycles mutates `%s` inside the search loop (line '
+                    '%d) but creates it outside the per-component loop: '
+                    'blocking information recorded for one start node is '
+                    'still in force for the next, so elementary cycles are '
+                    'skipped or reported more than once' % (
+                        name, where.lineno), file=CYCLE, function=f.qualname,
+                    line=where.lineno)
+    return rr
+
+
+def rule_accum(ctx):
+    rr = RuleResult('C10', 'C10.accum', 'DEF',
+                    'cut inputs found for one cycle are added to, never '
+                    'replace, those found for earlier cycles', floor=1)
+    p = ctx.project
+    sc = p.func(EXCEL, 'ExcelModel.solve_circular')
+    # accumulators: dicts created before a loop, passed to a package function
+    # inside the loop, read after it
+    loops = [n for n in sc.node.body if isinstance(n, ast.For)]
+    found = 0
+    for lp in loops:
+        for c in ast.walk(lp):
+            if not (isinstance(c, ast.Call) and isinstance(
+                    c.func, (ast.Name, ast.Attribute))):
+                continue
+            r = ctx.cg.resolve_name_expr(sc, c.func)
+            args = list(c.args)
+            if r and r[0] == 'ext' and r[1] == 'functools.partial' and args \
+                    and isinstance(args[0], (ast.Name, ast.Attribute)):
+                r = ctx.cg.resolve_name_expr(sc, args[0])
+                args = args[1:]
+            if not (r and r[0] == 'func'):
+                continue
+            g = r[1]
+            bound = [(g.params[i], a) for i, a in enumerate(args)
+                     if i < len(g.params)]
+            bound += [(k.arg, k.value) for k in c.keywords
+                      if k.arg in g.all_params]
+            for prm, a in bound:
+                if not isinstance(a, ast.Name):
+                    continue
+                created = any(isinstance(t, ast.Name) and t.id == a.id and
+                              isinstance(v, ast.Dict) and t.lineno < lp.lineno
+                              for t, v, _ in _pairs(sc))
+                used_after = any(isinstance(x, ast.Name) and x.id == a.id and
+                                 x.lineno > lp.end_lineno
+                                 for x in own_nodes(sc))
+                if not (created and used_after):
+                    continue
+                found += 1
+                rr.instances += 1
+                # names the parameter may be rebound to (`mod = {} if mod is
+                # None else mod`)
+                bad = None
+                for n in own_nodes(g):
+                    if isinstance(n, ast.Assign):
+                        for t in n.targets:
+                            if isinstance(t, ast.Subscript) and \
+                                    _root_name(t) == prm and isinstance(
+                                    t.value, ast.Name):
+                                if not _guarded_new_key(g, n, prm, t):
+                                    bad = n
+                if bad is None:
+                    rr.ok('%s only adds to the entries of `%s` (the mapping '
+                          '%s collects over all cycles)' % (
+                              g.qualname, prm, sc.qualname),
+                          '%s:%d' % (g.module.rel, g.lineno))
+                else:
+                    rr.fail(key_of(g, 'overwrites an accumulated entry'),
+                            '%s executes `%s`: it replaces what earlier calls '
+                            'stored under the same key in the mapping that %s '
+                            'fills over all cycles. A function node that lies '
+                            'on several cycles keeps only the inputs cut for '
+                            'the last one, the other cycles stay closed' % (
+                                g.qualname, norm_src(bad), sc.qualname),
+                            file=g.module.rel, function=g.qualname,
+                            line=bad.lineno)
+    if not found:
+        raise AnalysisError('solve_circular: no mapping accumulated over the '
+                            'cycles found')
+    return rr
+
+
+def _pairs(f):
+    from ..util import assign_pairs
+    return assign_pairs(f)
+
+
+def _guarded_new_key(g, assign, prm, target):
+    """`if k not in prm: prm[k] = ...` - writing a new key only."""
+    key = norm_src(target.slice)
+    for n in own_nodes(g):
+        if isinstance(n, ast.If) and any(x is assign for s in n.body
+                                         for x in ast.walk(s)):
+            t = n.test
+            if isinstance(t, ast.Compare) and len(t.ops) == 1 and isinstance(
+                    t.ops[0], ast.NotIn) and norm_src(t.left) == key and \
+                    norm_src(t.comparators[0]) == prm:
+                return True
+    return False
+
+
 def run(ctx):
-    return [rule_lazy(ctx), rule_err(ctx), rule_skip(ctx), rule_ord(ctx)]
+    return [rule_lazy(ctx), rule_err(ctx), rule_skip(ctx), rule_ord(ctx),
+            rule_fresh(ctx), rule_accum(ctx)]
